@@ -60,6 +60,8 @@ def hj_case(draw, tier):
     if fn != "hashantijoin" and draw(st.integers(0, 3)) == 0:
         c["lprefix"] = "l_"
         c["rprefix"] = "r_"
+    # optionally the first pass hits a transient fault while the build side is being read
+    c["fail_first"] = draw(st.one_of(st.none(), st.none(), st.integers(0, 3)))
     return c
 
 
@@ -106,7 +108,22 @@ def check_hj(case, ctx):
     ctx.nontrivial((dupbuild and (matched or kind == "anti")) or (case["passes"] >= 2 and kw.get("cache") is True and len(exp) > 0))
     La, Ra = codec.snapshot(L), codec.snapshot(Rt)
     try:
-        view = getattr(etl, fn)(La, Ra, **kw)
+        ff = case.get("fail_first")
+        bside = La if fn == "hashrightjoin" else Ra
+        if ff is not None and ff < len(bside) - 1:
+            from pv.probes import Counting, Boom
+            cb = Counting(bside)
+            cb.fail_at = ff
+            view = getattr(etl, fn)(cb, Ra, **kw) if fn == "hashrightjoin" else getattr(etl, fn)(La, cb, **kw)
+            try:
+                list(iter(view))
+                return Fail(fn + "/fault-swallowed", "build side raised at data row %d but the pass completed" % ff)
+            except Boom:
+                pass
+            cb.fail_at = None
+            ctx.label("retry-after-failed-pass")
+        else:
+            view = getattr(etl, fn)(La, Ra, **kw)
         outs = [[tuple(r) for r in view] for _ in range(case["passes"])]
     except Exception as ex:
         return exc_fail(fn, ex)
